@@ -1,1 +1,8 @@
+import PV.Props.C08
+import PV.Props.C12
+import PV.Props.C12clear
+import PV.Props.C12morris
+import PV.Props.C13
+import PV.Props.C14
 import PV.Props.C15
+import PV.Props.C19
